@@ -188,7 +188,7 @@ func SignInPlace(el *etree.Element, s SignSpec) *etree.Element {
 		inc.CreateAttr("PrefixList", s.PrefixList)
 	}
 	dsEl(ref, "DigestMethod").CreateAttr("Algorithm", digAlg)
-	dsEl(ref, "DigestValue").SetText(base64.StdEncoding.EncodeToString(digest))
+	dsEl(ref, "DigestValue").SetText(wrap64(base64.StdEncoding.EncodeToString(digest), s.Wrap64))
 
 	// insert now so that SignedInfo is canonicalised in its real namespace context
 	idx := 0
@@ -209,7 +209,7 @@ func SignInPlace(el *etree.Element, s SignSpec) *etree.Element {
 	// SignedInfo is always canonicalised without a prefix list (that is what the verifier does)
 	siBytes := CanonicalOf(si, c14n, "")
 	raw := rawSign(s.Key, sigHash[sigAlg], hashBytes(sigHash[sigAlg], siBytes))
-	dsEl(sig, "SignatureValue").SetText(base64.StdEncoding.EncodeToString(raw))
+	dsEl(sig, "SignatureValue").SetText(wrap64(base64.StdEncoding.EncodeToString(raw), s.Wrap64))
 
 	certKey := s.Key
 	mode := s.KeyInfo
@@ -221,7 +221,7 @@ func SignInPlace(el *etree.Element, s SignSpec) *etree.Element {
 	case "":
 		ki := dsEl(sig, "KeyInfo")
 		xd := dsEl(ki, "X509Data")
-		dsEl(xd, "X509Certificate").SetText(base64.StdEncoding.EncodeToString(world.Cert(certKey).Raw))
+		dsEl(xd, "X509Certificate").SetText(wrap64(base64.StdEncoding.EncodeToString(world.Cert(certKey).Raw), s.Wrap64))
 	case "none":
 	case "empty":
 		ki := dsEl(sig, "KeyInfo")
@@ -253,6 +253,24 @@ func SignInPlace(el *etree.Element, s SignSpec) *etree.Element {
 		panic("unknown tamper " + s.Tamper)
 	}
 	return sig
+}
+
+// wrap64 inserts a line feed after every 64 characters (and around the text) when on.
+func wrap64(b64 string, on bool) string {
+	if !on {
+		return b64
+	}
+	var sb strings.Builder
+	sb.WriteString("\n")
+	for i := 0; i < len(b64); i += 64 {
+		j := i + 64
+		if j > len(b64) {
+			j = len(b64)
+		}
+		sb.WriteString(b64[i:j])
+		sb.WriteString("\n")
+	}
+	return sb.String()
 }
 
 func tamperContent(el, sig *etree.Element) {
